@@ -822,7 +822,9 @@ func runSignerCases(env *respEnv) {
 			replace('M', sgAttr{kind: 'M', n: sgSign | sgVerify}), replace('M', sgAttr{kind: 'M', n: uint32(kmip.CryptographicUsageEncrypt)}),
 			replace('M', sgAttr{kind: 'M', n: 0x80000000 | sgSign | sgVerify}),
 			func(as []sgAttr, _ bool) []sgAttr { return nil },
-			func(as []sgAttr, _ bool) []sgAttr { return append([]sgAttr{{kind: 'O'}}, append(as, sgAttr{kind: 'O'})...) },
+			func(as []sgAttr, _ bool) []sgAttr {
+				return append([]sgAttr{{kind: 'O'}}, append(as, sgAttr{kind: 'O'})...)
+			},
 			func(as []sgAttr, _ bool) []sgAttr { // reversed order
 				out := make([]sgAttr, len(as))
 				for i, a := range as {
